@@ -11,8 +11,8 @@ func init() {
 	register(&propInfo{
 		ID:          "C15",
 		Run:         runC15,
-		MinObl:      16,
-		Explanation: "Decided: R1 client assertion — every success exit of the assertion branch of the default client authentication (jwt.ParseWithClaims and the key function traversed in place) requires: the registered method private_key_jwt; the registered signing algorithm equal to the header alg; the verification key obtained from the client's registered JWKS for an RS*/ES*/PS* method (HS* and unknown methods are fail exits); signature verification by the parser; Claims.Valid()==nil; VerifyIssuer(client id, required); sub == client id; a non-empty jti; ClientAssertionJWTValid(jti)==nil; an exp claim of a numeric type; SetClientAssertionJWT(jti, exp)==nil; and the audience matching a configured token URL; the client returned is the one looked up for that id; R2 at-most-once marking: the results of SetClientAssertionJWT / MarkJWTUsedForTime are tested and a non-nil result reaches only fail exits; in the reference store the existence test and the insertion of a jti happen under one uninterrupted write-lock hold and the exists edge returns ErrJTIKnown before the write; R3 JWT-bearer grant: success requires the signature verified with a key looked up for (iss, sub[, kid]), a non-empty audience containing a token URL, exp present and not before now, nbf not after now, iat present unless optional, exp − iat within the configured maximum, jti present unless optional and unused, the requested scopes covered by the key's scopes (C12) and the jti marked. NOT decided: go-jose's signature verification, interleavings beyond the store's atomic section.",
+		MinObl:      27,
+		Explanation: "Decided: R1 client assertion — every success exit of the assertion branch of the default client authentication (jwt.ParseWithClaims and the key function traversed in place) requires: the registered method private_key_jwt; the registered signing algorithm equal to the header alg; the verification key obtained from the client's registered JWKS for an RS*/ES*/PS* method (HS* and unknown methods are fail exits); signature verification by the parser; Claims.Valid()==nil; the exp claim verified as required against the current time (an absent or zero exp is a fail exit); VerifyIssuer(client id, required); sub == client id; a non-empty jti; ClientAssertionJWTValid(jti)==nil; an exp claim of a numeric type; SetClientAssertionJWT(jti, exp)==nil; and the audience matching a configured token URL; the client returned is the one looked up for that id; R2 at-most-once marking: the results of SetClientAssertionJWT / MarkJWTUsedForTime are tested and a non-nil result reaches only fail exits; in the reference store the existence test and the insertion of a jti happen under one uninterrupted write-lock hold and the exists edge returns ErrJTIKnown before the write; R3 JWT-bearer grant: success requires the signature verified with a key looked up for (iss, sub[, kid]), a non-empty audience containing a token URL, exp present and not before now, nbf not after now, iat present unless optional, exp − iat within the configured maximum, jti present unless optional and unused, the requested scopes covered by the key's scopes (C12) and the jti marked. R4 retention covers acceptance: over the four orderings of now against exp (before, equal, within the following second, later) every ordering in which jwt.verifyExp (whole seconds) or the JWT-bearer expiry test still accepts is one in which the reference store still reports a recorded jti as known and does not purge it (comparators read from the path literals; constant Add shifts folded; anything else undetermined = not retained). NOT decided: go-jose's signature verification, interleavings beyond the store's atomic section.",
 	})
 }
 
@@ -42,6 +42,7 @@ func runC15(c *Ctx) {
 	c15R1(c)
 	c15R2(c)
 	c15R3(c)
+	c15R4(c)
 }
 
 func c15R1(c *Ctx) {
@@ -55,7 +56,7 @@ func c15R1(c *Ctx) {
 	if !c.complete(ex, rule, role, fn) {
 		return
 	}
-	names := []string{"method-private-key-jwt", "alg-pinned", "key-from-jwks", "signature-verified", "claims-valid", "issuer", "subject", "jti-present", "jti-unused", "exp-typed", "jti-marked", "audience", "returns-looked-up-client"}
+	names := []string{"method-private-key-jwt", "alg-pinned", "key-from-jwks", "signature-verified", "claims-valid", "exp-required", "issuer", "subject", "jti-present", "jti-unused", "exp-typed", "jti-marked", "audience", "returns-looked-up-client"}
 	type chk struct {
 		ok  bool
 		w   *Path
@@ -137,6 +138,31 @@ func c15R1(c *Ctx) {
 		}
 		if cv == 0 {
 			fail("claims-valid", p, "assertion accepted without Claims.Valid()==nil")
+		}
+		// exp is required: Claims.Valid() treats an absent or zero exp as "no expiry"
+		// (VerifyExpiresAt(now, false)), so unexpired-ness needs the required form, or an
+		// explicit comparison of the exp claim with the current time
+		expReq, _ := p.BoolCall(".VerifyExpiresAt", func(t *Term) bool {
+			return len(t.Args) == 3 && t.Args[2].Key() == tTrue.Key() && mentionsNow(t.Args[1])
+		})
+		if !expReq {
+			for _, f := range p.Facts {
+				if f.Atom.Kind != "LT" {
+					continue
+				}
+				isExp := func(t *Term) bool {
+					return t.Mentions(func(s *Term) bool {
+						return s.Op == "lookup" && len(s.Args) == 2 && s.Args[1].Key() == tStr("exp").Key()
+					})
+				}
+				// now < exp, or not (exp < now)
+				if f.Pol && mentionsNow(f.Atom.A) && isExp(f.Atom.B) || !f.Pol && isExp(f.Atom.A) && mentionsNow(f.Atom.B) {
+					expReq = true
+				}
+			}
+		}
+		if !expReq {
+			fail("exp-required", p, "assertion accepted although its exp claim may be absent or zero: Claims.Valid() does not require exp, and no VerifyExpiresAt(now, required) / comparison of exp with the current time holds on the path")
 		}
 		// issuer / subject against the client id
 		iss, _ := p.BoolCall(".VerifyIssuer", func(t *Term) bool {
@@ -221,6 +247,7 @@ func c15R1(c *Ctx) {
 		"key-from-jwks":            "the verification key comes from the client's registered JWKS",
 		"signature-verified":       "the parser verified the signature with that key",
 		"claims-valid":             "Claims.Valid() returned nil",
+		"exp-required":             "the exp claim is present and compared with the current time (an absent or zero exp is refused)",
 		"issuer":                   "iss equals the client id (VerifyIssuer required)",
 		"subject":                  "sub equals the client id",
 		"jti-present":              "jti is non-empty",
@@ -437,7 +464,9 @@ func c15R3(c *Ctx) {
 			}
 			a := f.Atom.A
 			return (a.IsCall(".Before") && mentionsField(a.Args[0], "Expiry") && mentionsNow(a.Args[1]) && !f.Pol) ||
-				(a.IsCall(".After") && mentionsField(a.Args[1], "Expiry") && mentionsNow(a.Args[0]) && !f.Pol)
+				(a.IsCall(".After") && mentionsField(a.Args[1], "Expiry") && mentionsNow(a.Args[0]) && !f.Pol) ||
+				// now strictly before exp (exp.After(now), normalised)
+				(a.IsCall(".Before") && mentionsField(a.Args[1], "Expiry") && mentionsNow(a.Args[0]) && f.Pol)
 		})
 		if !expPresent || !expFresh {
 			fail("exp", p, fmt.Sprintf("success without exp present (%v) and not before now (%v)", expPresent, expFresh))
